@@ -41,7 +41,8 @@ def generate(seed: int, tier: str, idx: int) -> dict:
     s = stream(seed, "c13")
     kind = s.wpick([("clock", 90), ("spell", 5), ("malformed", 5)])
     if kind == "clock":
-        dt = s.pick([1, 7, 60, 90, 600, 900, 3600, 5400, 86400, s.randint(1, 100000)])
+        dt = s.pick([1, 7, 60, 90, 600, 900, 3600, 5400, 86400, s.randint(1, 100000),
+                     s.pick([61, 122, 1830, 3661, 3660, 3601, 7322, 36610, 43932])])    # PT1M1S, PT30M30S, PT1H1M1S, ...
         nst = s.randint(0, 40)
         extra = s.randint(1, dt - 1) if dt > 1 and s.chance(0.4) else 0
         rev = s.chance(0.5)
